@@ -260,6 +260,17 @@ func init() {
 // ---- gocache (explorer deduplicator): ghost set of keys that were Set; Get may miss a key
 // that was set (eviction) but never reports a key that was never set ----
 func init() {
+	libHandlers["(error).Error"] = func(fr *Frame, st *State, c *ast.CallExpr, fn *types.Func) []Val {
+		x := fr.x
+		x.used("error.Error(): the text is a function of the error value (errors are immutable)")
+		x.u.declSort("GoString")
+		x.need("errstr")
+		r := fr.recvOf(st, c)
+		return []Val{{T: "(errstr " + r.T + ")", S: "GoString", Ty: types.Typ[types.String]}}
+	}
+}
+
+func init() {
 	H := libHandlers
 	for _, inst := range []string{"[bool]", "[T]"} {
 		base := "(github.com/eko/gocache/v3/cache.CacheInterface" + inst + ")."
@@ -288,11 +299,7 @@ func init() {
 			}
 			old := x.getHeap(st, "cache.keys")
 			x.heapStore(st, "cache.keys", r.T, fmt.Sprintf("(store (select %s %s) %s true)", old, r.T, k.T))
-			cnt := "0"
-			if g, ok := st.ghost["count:cache.Set"]; ok {
-				cnt = g.T
-			}
-			st.ghost["count:cache.Set"] = x.bind(Val{T: "(+ " + cnt + " 1)", S: "Int"}, "cnt")
+			x.countInc(st, "cache.Set")
 			return []Val{x.errVal("err")}
 		}
 	}
